@@ -5,7 +5,9 @@ hypotheses H1-H3, zone_ok).  Tie: T-corr, extracted model vs the real classes on
 (pattern, zone, instant sequence) cases; the oracle tables of the model are filled from the real
 libc by the harness for exactly the case at hand; a monitor evaluates the property directly on the
 implementation; H1-H3 (+ the noon/midnight formula, + tzscan's reading of the zone files) are
-sampled against libc on every run."""
+sampled against libc on every run.  The model has a code-variant flag (strict: the repaired constructor that
+rejects unpatchable time-of-day conversions and a repeated specifier / the pinned earlier code); the flag of a run comes
+from the T-src facts c13_rejects_unpatchable and c13_rejects_repeated_spec (tools/srcfacts.py, TieC13.v)."""
 import json, os, sys, time, calendar
 from vlib import Check, standard_proof_phase, correspond, ddmin, VERIF
 sys.path.insert(0, os.path.join(VERIF, 'tools'))
@@ -13,7 +15,7 @@ import tzscan
 
 PID = 'C13'
 MANIFEST = dict(
-    text='Machine-checked proof (Coq): for every pattern over the handled (H M S I k l s), coarse (date/zone) and rewritten (r R T) strftime conversions and literals, with at most one of %Qms/%Qus/%Qns at any position, in GMT or in local time for every zone satisfying zone_ok (changes of offset/abbreviation only at epoch-aligned quarter hours, offsets multiples of 900 s), and for every sequence of instants (increasing, repeated, decreasing), the text produced by the model of TimestampFormatter/StringFromTime equals strftime of the instant with the specifier replaced by the zero-padded fraction (C13_gmt, C13_local, C13_frac), and two different specifiers or %X are rejected (C13_rejects); libc is an oracle with hypotheses H1-H3 stated in the theorems and sampled against the real libc on every run. Refutations kept visible: conversions embedding the time of day that are cached (C13_fine_refuted, D8), zones changing offset off the quarter-hour grid (C13_offgrid_refuted, D9), the same specifier twice is not rejected (C13_same_spec_refuted), %% directly before r R T X Q is misparsed (C13_pct_refuted); glibc flag forms such as %-H are outside the classified universe and go stale like D8 (finding N3, replayed on the code, not part of the theorems). Tied to the real classes by differential runs of the extracted model (oracle tables filled from the real libc per case) plus a direct property monitor; tools/tzscan.py checks zone_ok on every TZif file for 2001-2100.',
+    text='Machine-checked proof (Coq): for every pattern over the handled (H M S I k l s), coarse (date/zone) and rewritten (r R T) strftime conversions and literals, with at most one of %Qms/%Qus/%Qns at any position, in GMT or in local time for every zone satisfying zone_ok (changes of offset/abbreviation only at epoch-aligned quarter hours, offsets multiples of 900 s), and for every sequence of instants (increasing, repeated, decreasing), the text produced by the model of TimestampFormatter/StringFromTime equals strftime of the instant with the specifier replaced by the zero-padded fraction (C13_gmt, C13_local, C13_frac), and two different specifiers or %X are rejected (C13_rejects); libc is an oracle with hypotheses H1-H3 stated in the theorems and sampled against the real libc on every run. The model carries a code-variant flag strict (true = the repaired constructor, false = the pinned earlier one; the main theorems hold for both): with strict the same specifier twice is rejected (C13_rejects), and StringFromTime::init rejects every conversion that embeds the time of day but that the cache cannot patch - %c, and H M S I k l s r R T X behind any run of the bytes - _ 0 ^ # 1-9 E O, e.g. %Ec %EX %OH %-H %_5M - on every token list, and whenever the constructor accepts, the segments handed to StringFromTime pass that scan (C13_rejects_unpatchable); the variant that stands for /repo is fixed by T-src (tools/srcfacts.py c13_facts: skeletons of init() and of the constructor and the three character sets, TieC13.v by vm_compute, C13_code_variant_rejects). The former findings D8 (fine conversions), N3 (glibc flag forms) and N1 (same specifier twice) are kept as statements about the pinned variant next to the repaired one (C13_fine_pinned, C13_flagged_pinned, C13_same_spec_pinned). Refutations still standing: zones changing offset off the quarter-hour grid (C13_offgrid_refuted, D9), %% directly before r R T X Q is misparsed (C13_pct_refuted, N2). Tied to the real classes by differential runs of the extracted model (oracle tables filled from the real libc per case) plus a direct property monitor; tools/tzscan.py checks zone_ok on every TZif file for 2001-2100.',
     design='5 C13', technique='Coq invariant proof over instant sequences with libc as a hypothesis-carrying oracle + extracted-model/implementation differential correspondence + tz database scan')
 TRUSTED = [
     'Coq 8.16.1 kernel (coqc, vm_compute for the refutation witnesses; no native_compute)',
@@ -22,14 +24,16 @@ TRUSTED = [
     'zone hypothesis zone_ok checked per TZif file by tools/tzscan.py (its parser is cross-checked against libc tm_gmtoff/tm_zone around every transition used)',
     'extraction: ExtrOcamlBasic only, OCaml 4.13.1 ocamlopt, extract/driver.ml; the table-backed oracle closure in time_run_enc',
     'correspondence harness harness/time.cpp (setenv TZ + tzset per case, one child process per zone), g++ -fsanitize=address,undefined; python tokenizer/monitor in props/c13.py',
+    'T-src: tools/srcfacts.py c13_facts (clang 14 JSON AST skeletons of StringFromTime::init and the TimestampFormatter constructor, error-message wording stripped; the for-header is additionally matched on the comment-stripped source text) decides the model flag strict; TieC13.v pins the skeletons and the character sets "-_0^#123456789EO" / "HMSIklsrRTX" / "c" to the model\'s skip_chars / time_chars by vm_compute',
     'modelled rather than verified: StringFromTime/TimestampFormatter are re-stated in Gallina (Time/TimeModel.v); libfmt format_to "{:02}" "{:2}" "{:10}" and format_int are modelled as decimal rendering with left padding; std::string find/replace as list functions; libc, tzdata and the C locale are oracles; leap-second zones (right/) and negative instants are outside the model',
 ]
 
+STRICT = 1                      # model flag: 1 = the repaired constructor (T-src facts c13_rejects_*), 0 = the pinned earlier code; set by run()/replay()
 HANDLED = 'HMSIkls'
 COARSE = list('YymdejaAbBhpPuwCGgVUWDFntzZx%') + ['EC', 'Ex', 'Ey', 'EY', 'Od', 'Oe', 'Om', 'Ou', 'Ow', 'Oy', 'OU', 'OV', 'OW']
 REWRITTEN = 'rRT'
 FINE = ['c', 'Ec', 'EX', 'OH', 'OM', 'OS', 'OI']
-GLIBC_FLAGS = '-_0^#'          # %-H %_M %0S ... (glibc extension): not handled, cached like date fields (finding N3)
+GLIBC_FLAGS = '-_0^#'          # %-H %_M %0S ... (glibc extension): never patched in the cache (finding N3); the repaired init() rejects them
 TIME_LETTERS = 'HMSIklsrRTc'
 FRACS = {'ms': (3, 10 ** 6), 'us': (6, 10 ** 3), 'ns': (9, 1)}
 SPECIAL_Q = 'HMSIkls'          # the property's own exclusion: no %% directly before these
@@ -65,12 +69,13 @@ def tokenize(pat):
         n1 = pat[i + 1:i + 2]
         if n1 == b'Q' and pat[i + 2:i + 4] in (b'ms', b'us', b'ns'):
             items.append(('F', pat[i + 2:i + 4])); i += 4
-        elif n1 in (b'E', b'O') and i + 2 < len(pat):
-            items.append(('C', pat[i + 1:i + 3])); i += 3
-        elif n1 in (b'-', b'_', b'0', b'^', b'#') and i + 2 < len(pat):      # one glibc flag character
-            items.append(('C', pat[i + 1:i + 3])); i += 3
         else:
-            items.append(('C', n1)); i += 2
+            # glibc: '%' flags* width? [EO]? letter
+            j = i + 1
+            while j + 1 < len(pat) and pat[j:j + 1] in (b'-', b'_', b'0', b'^', b'#'): j += 1
+            while j + 1 < len(pat) and pat[j:j + 1].isdigit(): j += 1
+            if j + 1 < len(pat) and pat[j:j + 1] in (b'E', b'O'): j += 1
+            items.append(('C', pat[i + 1:j + 1])); i = j + 1
     fl()
     return items
 
@@ -82,7 +87,11 @@ def conv_class(body):
     if len(b) == 1 and b in REWRITTEN: return 'rewritten'
     if b == 'X': return 'rejected'
     if b in FINE: return 'fine'
-    if len(b) == 2 and b[0] in GLIBC_FLAGS and b[1] in TIME_LETTERS: return 'fine'      # finding N3
+    k = 0
+    while k < len(b) - 1 and (b[k] in GLIBC_FLAGS or b[k].isdigit()): k += 1
+    if k > 0:      # a flag / width form of a conversion that embeds the time of day (finding N3)
+        rest = b[k:]
+        if rest in FINE or rest == 'X' or (len(rest) == 1 and rest in TIME_LETTERS): return 'fine'
     return None
 
 
@@ -97,14 +106,15 @@ def pct_before(items, letters):
 
 # ----------------------------------------------------------------------------- cases
 class Case:
-    """short form: time <local> <zlen> zone.. <plen> pattern.. <n> ns..; full form adds the oracle tables"""
+    """short form: time <strict> <local> <zlen> zone.. <plen> pattern.. <n> ns..; full form adds the oracle tables.
+    <strict> is the model's code-variant flag; it is always written from the current T-src facts (STRICT)"""
     def __init__(self, local, zone, pat, nss, stream='structured'):
         self.local = int(bool(local)); self.zone = zone; self.pat = bytes(pat); self.nss = list(nss); self.stream = stream
         self.full = None; self.tab = {}; self.info = {}
 
     def short(self):
         z = self.zone.encode()
-        return ' '.join(map(str, ['time', self.local, len(z)] + list(z) + [len(self.pat)] + list(self.pat) + [len(self.nss)] + self.nss))
+        return ' '.join(map(str, ['time', STRICT, self.local, len(z)] + list(z) + [len(self.pat)] + list(self.pat) + [len(self.nss)] + self.nss))
 
     def secs(self):
         return sorted(set(ns // E9 for ns in self.nss))
@@ -116,7 +126,7 @@ class Case:
 def parse_case(line):
     t = line.split()
     a = [int(x) for x in t[1:]]
-    i = 0
+    i = 1          # a[0] = the model flag the line was written with; cases are re-issued with the current one
     local = a[i]; i += 1
     n = a[i]; zone = bytes(a[i + 1:i + 1 + n]).decode(); i += 1 + n
     n = a[i]; pat = bytes(a[i + 1:i + 1 + n]); i += 1 + n
@@ -158,7 +168,7 @@ class Pipeline:
 
     def fill(self, cases):
         ck = self.ck
-        q = ['timeq %d %s' % (len(c.pat), ' '.join(map(str, c.pat))) for c in cases]
+        q = ['timeq %d %d %s' % (STRICT, len(c.pat), ' '.join(map(str, c.pat))) for c in cases]
         ml = ck.run_model(self.mexe, q)
         olines = []
         for c, l in zip(cases, ml):
@@ -328,7 +338,10 @@ def spec_verdict(c):
     if pct_before(items, SPECIAL_Q): return False, False, '%% directly before one of H M S I k l s'
     if s_unreliable(c): return False, False, "libc's own %s is ambiguous here (repeated local hour without a DST flag change)"
     nfr = sum(1 for it in items if it[0] == 'F')
-    rej = nfr >= 2 or any(it == ('C', b'X') for it in items)
+    # must be rejected: more than one fractional specifier (the same one twice included), %X, and every conversion that
+    # embeds the time of day but that the cache cannot patch (it would show stale text): %c %Ec %EX %OH %OM %OS %OI and the
+    # flag / width forms of H M S I k l s r R T c X
+    rej = nfr >= 2 or any(it == ('C', b'X') for it in items) or any(it[0] == 'C' and conv_class(it[1]) == 'fine' for it in items)
     if not rej and any(it == ('C', b's') for it in items):
         if not (c.local or is_utc(c.zone)): return False, False, '%s in GMT mode under a non-UTC process zone'
         if any(not (E9 <= ns // E9 < 10 * E9) for ns in c.nss): return False, False, '%s outside ten-digit epochs'
@@ -377,7 +390,7 @@ def monitor_case(c, impl_line):
     o = dec_obs(impl_line)
     if o[0] == 'other': return 'implementation did not produce a rendering: %s' % impl_line[:80]
     if rej:
-        return None if o[0] == 'reject' else 'pattern %r uses more than one fractional specifier or %%X but was accepted: rendered %r' % (c.pat, o[1][:1])
+        return None if o[0] == 'reject' else 'pattern %r uses more than one fractional specifier, %%X or a time-of-day conversion the cache cannot patch, but was accepted: rendered %r' % (c.pat, o[1][:1])
     if o[0] == 'reject': return 'valid pattern %r was rejected by the constructor (code %d)' % (c.pat, o[1])
     exp = expected(c)
     for k, (e, g) in enumerate(zip(exp, o[1])):
@@ -529,7 +542,8 @@ def gen_fracpos(rng, zones):
 
 
 def gen_malformed(rng, n, zones):
-    """rejections (two different specifiers, %X) and patterns outside the quantifier (model vs code only)"""
+    """rejections (two different specifiers, %X) and patterns outside the quantifier (model vs code only);
+    the rejections introduced by the repair of D8 / N1 / N3 have their own stream (gen_rejected)"""
     cases = []
     while len(cases) < n:
         items = gen_items(rng, 1, 5)
@@ -553,6 +567,42 @@ def gen_malformed(rng, n, zones):
         nss, _ = gen_instants(rng, zn, local, b'%s' in flat(items))
         cases.append(Case(local, zn, flat(items), nss, 'malformed'))
     return cases
+
+
+def gen_rejected(rng, n, zones):
+    """patterns the constructor must reject since the repair of D8 / N1 / N3: a fine conversion, a flag / width form of
+    a conversion that embeds the time of day, or a fractional specifier used twice (model and code must both reject)"""
+    cases = []; kinds = {}
+    mods = [('', l) for l in TIME_LETTERS + 'X'] + [('E', 'c'), ('E', 'X'), ('O', 'H'), ('O', 'M'), ('O', 'S'), ('O', 'I')]
+    while len(cases) < n:
+        items = gen_items(rng, 0, 5)
+        r = rng.random()
+        if r < 0.25:
+            kind = 'fine'; items.insert(rng.randint(0, len(items)), ('C', rng.choice(FINE).encode()))
+        elif r < 0.75:
+            kind = 'flagged'
+            fl = ''.join(rng.choice(GLIBC_FLAGS) for _ in range(rng.choice([1, 1, 1, 2, 3]))) if rng.random() < 0.8 else ''
+            w = rng.choice(['', '', '', '2', '5', '10'])
+            if not fl and not w: fl = rng.choice(GLIBC_FLAGS)
+            mod, letter = rng.choice(mods)
+            items.insert(rng.randint(0, len(items)), ('C', (fl + w + mod + letter).encode()))
+        else:
+            kind = 'same-specifier-twice'; fk = rng.choice(list(FRACS)).encode()
+            for _ in range(rng.choice([2, 2, 3])): items.insert(rng.randint(0, len(items)), ('F', fk))
+        if kind != 'same-specifier-twice' and rng.random() < 0.5:
+            items.insert(rng.randint(0, len(items)), ('F', rng.choice(list(FRACS)).encode()))
+        merged = []
+        for it in items:
+            if it[0] == 'L' and merged and merged[-1][0] == 'L': merged[-1] = ('L', merged[-1][1] + it[1])
+            else: merged.append(it)
+        items = merged
+        if pct_before(items, SPECIAL_Q + SPECIAL_N2) or tokenize(flat(items)) != items: continue
+        pat = flat(items)
+        zn = rng.choice(zones); local = rng.random() < 0.5
+        if b'%s' in pat and not local: zn = 'UTC'
+        nss, _ = gen_instants(rng, zn, local, b'%s' in pat)
+        cases.append(Case(local, zn, pat, nss, 'rejected')); kinds[kind] = kinds.get(kind, 0) + 1
+    return cases, kinds
 
 
 def gen_known(rng, fs):
@@ -610,9 +660,24 @@ def corpus_cases():
 
 
 # ----------------------------------------------------------------------------- run
+def src_strict(ck):
+    """T-src: the model's code-variant flag from the facts tools/srcfacts.py (c13_facts) regenerated from the source tree"""
+    global STRICT
+    from props.c01 import srcfacts_values
+    facts = srcfacts_values()
+    vals = {k: facts.get(k) for k in ('c13_rejects_unpatchable', 'c13_rejects_repeated_spec')}
+    STRICT = 1 if all(v == 'true' for v in vals.values()) else 0
+    ck.tie.append({'T-src facts': vals, 'model variant for the correspondence run': 'strict=%d' % STRICT,
+                   'lemmas': 'TieC13.src_strict_true, TieC13.c13_skeletons_ok, TieC13.c13_charsets_ok (vm_compute); Properties_C13.C13_code_variant_rejects'})
+    return vals
+
+
 def run(tier):
     ck = Check(PID, tier)
-    broken = standard_proof_phase(ck, 'Properties_C13', need_srcfacts=False)
+    broken = standard_proof_phase(ck, 'Properties_C13')
+    vals = src_strict(ck)
+    if not STRICT:
+        ck.log('T-src: %s -> the source tree does not hold the repair of D8/N1/N3; the model runs its pinned variant (strict=0)' % vals)
     mexe, err = ck.build_modelrun()
     if not mexe:
         ck.violation('no-failing-input-found', 'model extraction/build failed: ' + err[-400:]); return ck.finish(trusted=TRUSTED)
@@ -634,7 +699,8 @@ def run(tier):
                 for tr in sg['instants']:
                     g = (tr // 900 + 1) * 900
                     known.append(Case(1, sg['zone'], b'%d %H:%M:%S %z', [x * E9 for x in (tr - 1, tr, tr + 1, g - 1, g)], 'known'))
-    allcases = corpus_cases() + known + gen_fracpos(ck.rng, QUICK_ZONES) + structured + gen_malformed(ck.rng, n // 6, QUICK_ZONES)
+    rejected, rej_kinds = gen_rejected(ck.rng, n // 8, QUICK_ZONES)
+    allcases = corpus_cases() + known + gen_fracpos(ck.rng, QUICK_ZONES) + structured + gen_malformed(ck.rng, n // 6, QUICK_ZONES) + rejected
     skipped = [c for c in allcases if s_unreliable(c)]
     allcases = [c for c in allcases if not s_unreliable(c)]
     state = {}
@@ -658,7 +724,7 @@ def run(tier):
         c = Case(c0.local, c0.zone, flat(items), nss); pl.fill([c])
         return c.full
 
-    ndis = nmon = known_hit = ninst = 0
+    ndis = nmon = known_hit = ninst = nrej_agree = 0; rej_other = []
     distinct = {}; streams = {}; zones_seen = set()
     CH = 8000
     for k0 in range(0, len(allcases), CH):
@@ -673,6 +739,10 @@ def run(tier):
                               monitor=monitor, shrink=shrink, known_match=known_match)
         ndis += len(dis); nmon += len(mon)
         known_hit += sum(1 for (c, m, i, mf) in mon if known_match(c, i, mf))
+        for c, m, i in zip(cases, ml, il):
+            if c.stream == 'rejected':
+                if m == i and dec_obs(i)[0] == 'reject': nrej_agree += 1
+                elif len(rej_other) < 5: rej_other.append({'case': c.short(), 'spec': list(spec_verdict(c)), 'impl': i[:60]})
         for c in cases:
             if c.stream in ('structured', 'corpus') and nontrivial(c): distinct[c.key()] = 1
             streams[c.stream] = streams.get(c.stream, 0) + 1; zones_seen.add(c.zone); ninst += len(c.nss)
@@ -717,10 +787,12 @@ def run(tier):
         ck.violation('no-failing-input-found', '; '.join(broken))
     total = sum(streams.values())
     return ck.finish(trusted=TRUSTED, samples=[c.short() for c in (structured[:2] + structured[-2:])],
-                     rule='case = "time <local> <len zone..> <len pattern..> <n> ns.." + oracle tables filled from the real libc; structured stream: 1-8 items over handled/coarse/rewritten conversions and literals (NO fine conversions %c %Ec %EX %OH %OM %OS %OI, no glibc flag forms %-H %_M ..., no %% directly before H M S I k l s r R T X Q: those are exercised in the dedicated known-finding stream, which must fail exactly as the open findings say), one of %Qms/%Qus/%Qns at a random position in 80% of the patterns plus a sweep of every position, local mode 60%, zones round-robin over the tier\'s zone list (quick: 14 zones; thorough: every TZif zone outside posix/ and right/), %s only in local mode or under TZ=UTC, only for t >= 10^9 and not inside a repeated local hour without a DST flag change (libc mktime ambiguity; such cases are counted as skipped); instants anchored at second/minute/hour/GMT noon/GMT midnight/local noon/local midnight/quarter hour/every kind of zone transition taken from the TZif file (off-grid ones included: they must match a listed D9 instant)/year end/10^9, then steps of +-{1 s,1 h,12 h,1 d,1 y, 899..901 s}, repeats and jumps backwards; malformed stream: two different specifiers, %X, and patterns outside the quantifier (model vs code only); non-trivial = structured/corpus case with a handled or rewritten conversion whose cache was patched at least once and bypassed/rebuilt at least once; distinct by (mode, zone, pattern, instants)',
+                     rule='case = "time <strict> <local> <len zone..> <len pattern..> <n> ns.." + oracle tables filled from the real libc (<strict> = the model\'s code-variant flag, taken from the T-src facts c13_rejects_unpatchable && c13_rejects_repeated_spec); structured stream: 1-8 items over handled/coarse/rewritten conversions and literals (NO fine conversions %c %Ec %EX %OH %OM %OS %OI, no glibc flag forms %-H %_M ..., no %% directly before H M S I k l s r R T X Q: the first two are exercised in the rejected stream, the last in the dedicated known-finding stream, which must fail exactly as the open findings say), one of %Qms/%Qus/%Qns at a random position in 80% of the patterns plus a sweep of every position, local mode 60%, zones round-robin over the tier\'s zone list (quick: 14 zones; thorough: every TZif zone outside posix/ and right/), %s only in local mode or under TZ=UTC, only for t >= 10^9 and not inside a repeated local hour without a DST flag change (libc mktime ambiguity; such cases are counted as skipped); instants anchored at second/minute/hour/GMT noon/GMT midnight/local noon/local midnight/quarter hour/every kind of zone transition taken from the TZif file (off-grid ones included: they must match a listed D9 instant)/year end/10^9, then steps of +-{1 s,1 h,12 h,1 d,1 y, 899..901 s}, repeats and jumps backwards; malformed stream: two different specifiers, %X, and patterns outside the quantifier (model vs code only); rejected stream: 0-5 such items plus a fine conversion (25%), a flag/width/E/O form of one of H M S I k l s r R T c X with 1-3 flags from - _ 0 ^ # and/or a width (50%), or the same specifier 2-3 times (25%): the monitor demands a rejection and model and code must agree on it; non-trivial = structured/corpus case with a handled or rewritten conversion whose cache was patched at least once and bypassed/rebuilt at least once; distinct by (mode, zone, pattern, instants)',
                      evaluations=total, distinct_nontrivial=len(distinct), traces=total - ndis - nmon + known_hit,
                      extra_cov={'disagreements': ndis, 'monitor_failures': nmon, 'monitor_failures_matching_open_findings': known_hit,
                                 'streams': streams, 'anchor_histogram': hist, 'zones': len(zones_seen),
+                                'model_flag_strict': STRICT, 'rejected_stream_kinds': rej_kinds,
+                                'rejected_stream_rejected_by_model_and_code': nrej_agree, 'rejected_stream_other_samples': rej_other,
                                 'instants': ninst, 'hypothesis_samples': pl.hyp_checked,
                                 'skipped_libc_percent_s_ambiguous': len(skipped)})
 
@@ -728,6 +800,7 @@ def run(tier):
 def replay(path):
     d = json.load(open(path))
     ck = Check(PID, 'quick')
+    ck.srcfacts(); src_strict(ck)
     mexe, _ = ck.build_modelrun(); iexe, _ = ck.build_harness('time', ['time.cpp'])
     line = d.get('case')
     if not line:
@@ -737,7 +810,7 @@ def replay(path):
     pl = Pipeline(ck, mexe, iexe)
     m, i = pl.run([c])
     print('zone   :', c.zone, '(local time)' if c.local else '(GMT mode; process zone)')
-    print('pattern:', c.pat)
+    print('pattern:', c.pat, ' model variant: strict=%d (T-src)' % STRICT)
     print('ns     :', c.nss)
     print('model  :', dec_obs(m[0])); print('impl   :', dec_obs(i[0]))
     inq, rej, why = spec_verdict(c)
